@@ -218,7 +218,7 @@ def _index_oracle(op, brs, fac, rd, bases, got):
 
 
 def oracle(case: Case, out: str):
-    if not case.claimed:
+    if not case.claimed or SILENT in case.tags:
         return None
     f = case.line.split()
     op = f[1]
@@ -244,6 +244,8 @@ def oracle(case: Case, out: str):
             return ("raises", "calc raised on " + case.line[:200])
         vals = parse_vals(body)
         for b, v, fac in zip(bases, vals, facs):
+            if fac <= 0:
+                continue
             want = spec_mr(brs, b, fac) if rd is None else spec_mr_rounded(brs, b, fac, rd)
             if want is not None and v != want:
                 return ("mr-calc", f"scale {fmt_scale(brs)} factor {fac} decimals {rd} base {b}: calc={v}, definition={want}")
@@ -283,7 +285,7 @@ def oracle(case: Case, out: str):
             right, ins, bases = False, parse_scale(f[2]), split_bases(f[3])[1]
         brs = spec_build(ins)
         if body == "ERR":
-            return ("raises", f"{op} raised on " + case.line[:200])
+            return ("raises", f"{op} raised on " + case.line[:200]) if brs or op != "lacalc" else None
         vals = parse_vals(body)
         for b, v in zip(bases, vals):
             if op == "macalc":
@@ -314,8 +316,16 @@ def nontrivial(case: Case, out: str) -> bool:
 # generators
 
 
-def _mk(op, *fields, claimed=True, tags=()):
-    return Case(line=" ".join(["sca", op, *map(str, fields)]), claimed=claimed, tags=(op,) + tuple(tags))
+SILENT = "oracle-silent"
+
+
+def _mk(op, *fields, claimed=True, tags=(), binding=True):
+    """`claimed=False`: outside the statement's claim domain (Appendix A) -- the ORACLE is silent there,
+    but the line stays binding for the correspondence, because the model transcribes the code on
+    that region too (a diff there is a behaviour change nobody has proved harmless).
+    `binding=False` would be for regions that are genuinely unmodelled; no stream needs it."""
+    return Case(line=" ".join(["sca", op, *map(str, fields)]), claimed=binding,
+                tags=(op,) + tuple(tags) + (() if claimed else (SILENT,)))
 
 
 def rand_ins(rng: random.Random, nmax=8, nonneg=False):
@@ -457,6 +467,24 @@ def variant_cases(rng, s, brs):
         menu.append(("lacalc", (s, "i:" + fmt_vals(la_in))))
     for opn, fields in rng.sample(menu, 3):
         out.append(_mk(opn, *fields, tags=("int-array",)))
+    # integer arrays with a fractional factor: integer bases in the gaps between t*floor(f), t*f, t*ceil(f)
+    fi = F(rng.choice([4, 12, 22, 10, 9, 5, 21, 3, 20, 13]), 8)
+    fl, ce = fi.numerator // fi.denominator, -((-fi.numerator) // fi.denominator)
+    gb = set()
+    for t in ths:
+        x = fi * t
+        k = x.numerator // x.denominator
+        gb |= {F(k - 1), F(k), F(k + 1), F(k + 2), t * fl, t * fl + 1, t * ce, t * ce - 1, (t * fl + k) // 2}
+    gb |= {min(fi * ths[0], fi * ths[-1]) - 50, max(fi * ths[0], fi * ths[-1]) + 500}
+    gb = sorted({F(F(b).numerator // F(b).denominator) for b in gb})
+    gin, gout = _split_index_bases([fi * t for t in ths], gb)
+    ef = fr(eps_eff(fi))
+    out.append(_mk("mrcalc", 0, fr(fi), "-", s, "i:" + fmt_vals(gb), tags=("int-array", "factor")))
+    for opn in ("mridx", "mrrate"):
+        if gin:
+            out.append(_mk(opn, ef, fr(fi), "-", s, "i:" + fmt_vals(gin), tags=("int-array", "factor")))
+        if gout and opn == "mridx":
+            out.append(_mk(opn, ef, fr(fi), "-", s, "i:" + fmt_vals(gout), claimed=False, tags=("int-array", "factor", "below-first")))
     # an array of factors: base j is placed next to a threshold scaled by its own factor
     d = rng.choice([None, None, 0, 0, 1, 2])
     facs, vb = [], []
@@ -466,10 +494,14 @@ def variant_cases(rng, s, brs):
         k = (x * 8).numerator // (x * 8).denominator
         facs.append(fj)
         vb.append(F(k + rng.choice([-8, -2, -1, 0, 0, 1, 2, 8, 400]), 8))
+    ipre = ""
+    if rng.random() < 0.5:                       # ... as an integer array
+        vb = [F(b.numerator // b.denominator) for b in vb]
+        ipre = "i:"
     eps = [eps_eff(x) for x in facs]
     dd = "-" if d is None else d
     if d in (None, 0):
-        out.append(_mk("mrcalcv", fmt_vals([F(0)] * len(facs) if d is None else eps), fmt_vals(facs), dd, s, fmt_vals(vb), tags=("factor-array",)))
+        out.append(_mk("mrcalcv", fmt_vals([F(0)] * len(facs) if d is None else eps), fmt_vals(facs), dd, s, ipre + fmt_vals(vb), tags=("factor-array",)))
     keep = []
     for j, (fj, b) in enumerate(zip(facs, vb)):
         lo, hi = _rounded([fj * ths[0]], d)
@@ -477,8 +509,8 @@ def variant_cases(rng, s, brs):
             keep.append(j)
     if keep:
         sel = lambda l: fmt_vals([l[j] for j in keep])
-        out.append(_mk("mridxv", sel(eps), sel(facs), dd, s, sel(vb), tags=("factor-array",)))
-        out.append(_mk("mrratev", sel(eps), sel(facs), dd, s, sel(vb), tags=("factor-array",)))
+        out.append(_mk("mridxv", sel(eps), sel(facs), dd, s, ipre + sel(vb), tags=("factor-array",)))
+        out.append(_mk("mrratev", sel(eps), sel(facs), dd, s, ipre + sel(vb), tags=("factor-array",)))
     # rate_from_bracket_indice on indices given directly
     n = len(brs)
     out.append(_mk("ratefi", s, ",".join(str(rng.randrange(n)) for _ in range(rng.randint(1, 6))), tags=("valid",)))
@@ -667,6 +699,9 @@ PROP = Prop(
         "LinearAverageRateTaxScale.calc contains one float division: compared with tolerance 2^-20",
         "vector and single-base evaluation are claimed equal after snapping, not bitwise (BLAS summation order)",
         "numpy primitives (tile, outer, minimum/maximum, dot, digitize, round) and bisect are modelled",
+        "outside the claim domain the ORACLE is silent but every line stays binding for the correspondence (the model transcribes the "
+        "code there too: index -1 and wrapped rate below the first threshold, linear average 0 outside [t_0, t_last), errors on empty "
+        "arguments, negative factor, right= ignored by the marginal-amount and linear-average scales, out-of-range bracket indices)",
         "claim domain (Appendix A): calc everywhere; bracket index / marginal rate for bases >= the first threshold (and not equal to a "
         "positive first threshold); linear average on [t_0, t_last); conventions outside are compared but not binding",
     ],
